@@ -4597,7 +4597,17 @@ class NetCDFWrite(IOWrite):
         filename = os.path.realpath(filename)
         for f in fields:
             for original in self.implementation.get_original_filenames(f):
-                if os.path.realpath(original) == filename:
+                original = os.path.realpath(original)
+                same = original == filename
+                if not same:
+                    # Another hard link to the same file
+                    try:
+                        same = os.path.samefile(original, filename)
+                    except OSError:
+                        # One of them does not exist
+                        same = False
+
+                if same:
                     raise ValueError(
                         f"Can't write with mode {mode!r} to a file that "
                         "contains data that needs to be read: "
